@@ -117,6 +117,10 @@ func (tx *Tx) Incr(key string, delta int) (int, error) {
 
 	// increment the value
 	newVal := valInt + delta
+	if (delta > 0 && newVal < valInt) || (delta < 0 && newVal > valInt) {
+		// the sum does not fit into an integer
+		return 0, core.ErrValueType
+	}
 	err = update(tx.tx, key, newVal)
 	if err != nil {
 		return 0, err
